@@ -996,6 +996,10 @@ func runC15(a vh.Args, o *vh.Oracle, r *vh.Result) error {
 	if err := c15Plumbing(a, o, r, rng); err != nil {
 		return err
 	}
+	// histories of authorized and unauthorized requests for the same objects, binaries with default options
+	if err := c15Histories(a, o, r, rng.Fork()); err != nil {
+		return err
+	}
 	if a.Tier == "thorough" {
 		return c15CLI(a, o, r, rng)
 	}
